@@ -39,6 +39,8 @@ type popGen struct {
 	pkg     *types.Package
 	imports map[string]string // path -> name
 	n       int
+	boolIdx int
+	variant int
 	impls   map[string][]types.Type
 }
 
@@ -186,8 +188,15 @@ func (g *popGen) expr(t types.Type, depth int) string {
 		case u.Info()&types.IsString != 0:
 			return g.conv(t, fmt.Sprintf("\"s%d\"", g.n))
 		case u.Info()&types.IsBoolean != 0:
-			// neighbouring Boolean fields get different values (a copy that takes the wrong field shows)
-			if g.n%2 == 0 {
+			// the m-th Boolean of variant k is bit (k mod 4) of m (complemented for k >= 4): any two Boolean
+			// fields differ in some variant, so a copy that takes the wrong field shows
+			m := g.boolIdx
+			g.boolIdx++
+			bit := (m >> uint(g.variant%4)) & 1
+			if g.variant >= 4 {
+				bit ^= 1
+			}
+			if bit == 1 {
 				return g.conv(t, "true")
 			}
 			return g.conv(t, "false")
@@ -255,7 +264,18 @@ func (g *popGen) expr(t types.Type, depth int) string {
 			return "nil"
 		}
 		g.n++
-		return g.expr(impls[g.n%len(impls)], depth-1)
+		for try := 0; try < len(impls); try++ {
+			impl := impls[(g.n+try)%len(impls)]
+			x := g.expr(impl, depth-1)
+			if x != "nil" {
+				return x
+			}
+			if _, isPtr := impl.Underlying().(*types.Pointer); !isPtr {
+				// a nil slice or map of a named implementation type is still a non-nil interface value
+				return g.tstr(impl) + "(nil)"
+			}
+		}
+		return "nil"
 	}
 	return "nil"
 }
@@ -445,7 +465,25 @@ func (r *checkRun) copyReplay(f *ssa.Function) *replayTest {
 	// several populated receivers: interface fields rotate through their implementations
 	for k := 0; k < 8; k++ {
 		g.n = k * 7
+		g.variant, g.boolIdx = k, 0
 		cases = append(cases, g.expr(recvT, 3))
+	}
+	// sparse receivers: nested pointers, interfaces and containers left nil (a Copy that forgets a nil test
+	// panics on these)
+	for _, depth := range []int{0, 1, 2} {
+		g.n, g.variant, g.boolIdx = 100+depth, depth, 0
+		x := g.expr(recvT, depth)
+		if depth == 0 {
+			if pt, ok := recvT.Underlying().(*types.Pointer); ok {
+				if _, isStruct := pt.Elem().Underlying().(*types.Struct); isStruct {
+					x = "&" + g.expr(pt.Elem(), 0)
+				}
+			}
+		}
+		if x == "nil" {
+			x = g.tstr(recvT) + "(nil)"
+		}
+		cases = append(cases, x)
 	}
 	var b bytes.Buffer
 	fmt.Fprintf(&b, "package %s\n\nimport (\n\t\"fmt\"\n\t\"reflect\"\n\t\"strings\"\n\t\"testing\"\n\t\"unsafe\"\n", pkg.Name())
@@ -466,7 +504,7 @@ func (r *checkRun) copyReplay(f *ssa.Function) *replayTest {
 	b.WriteString("\t}\n\tfor i, orig := range origs {\n\t\tcp := orig.Copy()\n\t\tfor _, m := range verifCopyCheck(orig, cp) {\n\t\t\tt.Errorf(\"VERIF-REPLAY-FAIL case %d: %s\", i, m)\n\t\t}\n\t}\n}\n")
 	rel := strings.TrimPrefix(strings.TrimPrefix(pkg.Path(), modPath), "/")
 	return &replayTest{PkgDir: rel, TestName: "TestVerifReplay", Source: b.String(),
-		Input: "receiver values built from the type definition of " + g.tstr(recvT) + " with every pointer, slice, map and interface field populated (8 variants rotating the implementations of interface-typed fields)"}
+		Input: "receiver values built from the type definition of " + g.tstr(recvT) + " with every pointer, slice, map and interface field populated (8 variants rotating the implementations of interface-typed fields, plus 3 sparse receivers whose nested pointers, interfaces and containers are nil)"}
 }
 
 // runReplay executes the test against the repository through a build overlay.
@@ -505,7 +543,7 @@ func runReplay(repo string, rt *replayTest) error {
 		s = s[:6000] + "\n...[truncated]"
 	}
 	rt.Output = s
-	rt.Failed = strings.Contains(s, "VERIF-REPLAY-FAIL")
+	rt.Failed = strings.Contains(s, "VERIF-REPLAY-FAIL") || strings.Contains(s, "panic:")
 	return nil
 }
 
@@ -515,7 +553,11 @@ func (r *checkRun) tryReplay(v *violation, cache map[string]*replayTest) *replay
 	if f == nil {
 		return nil
 	}
-	switch v.ob.Family {
+	fam := v.ob.Family
+	if fam == "SAFE" && isCopyMethod(r.w, f) {
+		fam = "COPY" // a panic in a Copy method: the same receivers (they include sparse ones) show it
+	}
+	switch fam {
 	case "COPY":
 		if rt, ok := cache["COPY|"+v.ob.Fn]; ok {
 			return rt
